@@ -1,0 +1,148 @@
+//! I/O tap: records every file mutation issued through [`crate::io::disk::DBFile`] in the order in
+//! which the calls returned, and can inject I/O errors. With no recording armed the cost is one
+//! relaxed atomic load per call.
+use std::{
+    io,
+    path::Path,
+    sync::{
+        Mutex,
+        atomic::{AtomicBool, AtomicI64, AtomicU64, Ordering},
+    },
+};
+
+#[derive(Clone, Debug, PartialEq, Eq)]
+pub enum IoEvent {
+    /// File created (or truncated by create).
+    Create { file: String },
+    /// Existing file opened.
+    Open { file: String },
+    /// `data` written at `offset`.
+    Write { file: String, offset: u64, data: Vec<u8> },
+    /// File length set to `len`.
+    SetLen { file: String, len: u64 },
+    /// fsync.
+    Sync { file: String },
+    /// Marker pushed by the harness (CALL / ACK brackets).
+    Mark { text: String },
+}
+
+impl IoEvent {
+    /// True for events that change file contents (crash points are counted over these).
+    pub fn is_mutation(&self) -> bool {
+        matches!(self, IoEvent::Create { .. } | IoEvent::Write { .. } | IoEvent::SetLen { .. })
+    }
+}
+
+static ARMED: AtomicBool = AtomicBool::new(false);
+static LOG: Mutex<Vec<IoEvent>> = Mutex::new(Vec::new());
+/// Number of mutations still allowed before every further mutation fails; negative = no fault armed.
+static FAIL_AFTER: AtomicI64 = AtomicI64::new(-1);
+static MUTATIONS: AtomicU64 = AtomicU64::new(0);
+static READS: AtomicU64 = AtomicU64::new(0);
+
+fn name(p: &Path) -> String {
+    p.to_string_lossy().into_owned()
+}
+
+/// Start recording (clears any previous log).
+pub fn start() {
+    let mut g = LOG.lock().unwrap();
+    g.clear();
+    MUTATIONS.store(0, Ordering::SeqCst);
+    ARMED.store(true, Ordering::SeqCst);
+}
+
+/// Stop recording and return the log.
+pub fn take() -> Vec<IoEvent> {
+    let mut g = LOG.lock().unwrap();
+    ARMED.store(false, Ordering::SeqCst);
+    FAIL_AFTER.store(-1, Ordering::SeqCst);
+    std::mem::take(&mut *g)
+}
+
+/// Push a harness marker into the same total order as the I/O events.
+pub fn mark(text: impl Into<String>) {
+    if ARMED.load(Ordering::Relaxed) {
+        LOG.lock().unwrap().push(IoEvent::Mark { text: text.into() });
+    }
+}
+
+/// After `n` more mutations, every mutation returns an I/O error (fault injection, not a crash).
+pub fn fail_after(n: u64) {
+    FAIL_AFTER.store(n as i64, Ordering::SeqCst);
+}
+
+pub fn clear_fault() {
+    FAIL_AFTER.store(-1, Ordering::SeqCst);
+}
+
+/// Total number of file mutations seen since `start` (progress counter for watchdogs).
+pub fn mutation_count() -> u64 {
+    MUTATIONS.load(Ordering::Relaxed)
+}
+
+pub fn read_count() -> u64 {
+    READS.load(Ordering::Relaxed)
+}
+
+#[inline]
+pub(crate) fn on_read() {
+    READS.fetch_add(1, Ordering::Relaxed);
+}
+
+/// Called before a mutation is issued. Returns an error when a fault is armed and due.
+#[inline]
+pub(crate) fn before_mutation() -> io::Result<()> {
+    let f = FAIL_AFTER.load(Ordering::Relaxed);
+    if f < 0 {
+        return Ok(());
+    }
+    if f == 0 {
+        return Err(io::Error::other("verif: injected I/O fault"));
+    }
+    FAIL_AFTER.fetch_sub(1, Ordering::SeqCst);
+    Ok(())
+}
+
+#[inline]
+fn push(ev: IoEvent) {
+    if ev.is_mutation() {
+        MUTATIONS.fetch_add(1, Ordering::Relaxed);
+    }
+    if ARMED.load(Ordering::Relaxed) {
+        LOG.lock().unwrap().push(ev);
+    }
+}
+
+#[inline]
+pub(crate) fn on_create(p: &Path) {
+    push(IoEvent::Create { file: name(p) });
+}
+
+#[inline]
+pub(crate) fn on_open(p: &Path) {
+    if ARMED.load(Ordering::Relaxed) {
+        push(IoEvent::Open { file: name(p) });
+    }
+}
+
+#[inline]
+pub(crate) fn on_write(p: &Path, offset: u64, data: &[u8]) {
+    if ARMED.load(Ordering::Relaxed) {
+        push(IoEvent::Write { file: name(p), offset, data: data.to_vec() });
+    } else {
+        MUTATIONS.fetch_add(1, Ordering::Relaxed);
+    }
+}
+
+#[inline]
+pub(crate) fn on_set_len(p: &Path, len: u64) {
+    push(IoEvent::SetLen { file: name(p), len });
+}
+
+#[inline]
+pub(crate) fn on_sync(p: &Path) {
+    if ARMED.load(Ordering::Relaxed) {
+        push(IoEvent::Sync { file: name(p) });
+    }
+}
